@@ -80,6 +80,9 @@ fn warm(d: &dyn Drv, rng: &mut Rng, ids: &mut u64, n: u64) {
 }
 
 fn after_close_checks(d: &dyn Drv, f: &mut Findings, tag: &str) {
+    // close() need not wait for the processor: what was buffered before the close may still be applied
+    // or drained until the worker has gone; only then is a change attributable to the calls made below
+    let _ = workers_gone(d.flavor(), Duration::from_secs(20));
     let before = d.snapshot();
     let r = d.try_insert(1, Tracked::new(u64::MAX - 1, 1), 1, Duration::ZERO);
     if r != Ok(false) {
